@@ -64,10 +64,11 @@ RULE = ('melt/recast: all rectangular tables, w in {2,3} x every permutation of 
         'variable/value field names')
 ASSUMPTIONS = ['key alphabet K4 (None, two ints, one string; seed picks the concrete values): pairwise '
                'non-equivalent under the C04 order, so distinct cells are unique keys',
-               'value cells are position-tagged strings (every cell distinct) or None on a checkerboard',
+               'value cells are position-tagged strings (every cell distinct), None on a checkerboard, or the falsy non-None values 0, \'\', False, 0.0, () (wave 9)',
                'tables have <= 3 rows (<= 4 for pivot and in thorough)']
 
 MARK = '∅'
+FALSY = (0, '', False, 0.0, ())
 NOTHING = ('nothing',)
 NAMES = ('a', 'b', 'c', 'd')
 _K4 = None
@@ -173,6 +174,9 @@ def tag(i, j):
 def value_cell(i, j, variant):
     if variant == 'checker' and (i + j) % 2 == 0:
         return None
+    if variant == 'falsy':
+        # falsy but not None: a cell that is present must not be taken for an absent one (wave 9)
+        return FALSY[(2 * i + j) % len(FALSY)]
     return tag(i, j)
 
 
@@ -232,7 +236,7 @@ def mk_cols(outer, inner, t, hdr):
     return list(cs) if outer == 'list' else tuple(cs) if outer == 'tuple' else iter(cs)
 
 
-REDUCERS = {'count': len, 'first': lambda vs: vs[0], 'joined': lambda vs: '+'.join(vs)}
+REDUCERS = {'count': len, 'first': lambda vs: vs[0], 'joined': lambda vs: '+'.join(str(x) for x in vs)}
 AGG = {'sum': sum, 'list': list, 'len': len, 'max': max}
 
 
@@ -859,7 +863,8 @@ def run_item(item, acc):
         first = True
         for n in range(0, 4):
             for keys in key_assignments(len(K), n, tier):
-                for variant in (('tagged', 'checker') if len(K) == 1 or tier == 'thorough' else ('tagged',)):
+                for variant in (('tagged', 'checker', 'falsy') if len(K) == 1 or tier == 'thorough'
+                                else ('tagged', 'falsy')):
                     t = mk_melt_table(perm, K, keys, variant)
                     _do(acc, {'form': 'melt', 'table': t, 'key': list(K)}, 'melt/recast')
                     if first and n == 2:
@@ -886,12 +891,13 @@ def run_item(item, acc):
             for combo in itertools.product(range(len(opts)), repeat=n):
                 if first is not None and (not combo or combo[0] // 2 != first):
                     continue
-                rows = [hdr]
-                for i, o in enumerate(combo):
-                    k, v = opts[o]
-                    d = {'k': k, 'variable': v, 'value': 'v%d' % i}
-                    rows.append(tuple(d[h] for h in hdr))
-                _do(acc, {'form': 'recast', 'table': rows, 'var0': varset[0]}, 'recast')
+                for valkind in ('tag', 'falsy'):
+                    rows = [hdr]
+                    for i, o in enumerate(combo):
+                        k, v = opts[o]
+                        d = {'k': k, 'variable': v, 'value': 'v%d' % i if valkind == 'tag' else FALSY[i % len(FALSY)]}
+                        rows.append(tuple(d[h] for h in hdr))
+                    _do(acc, {'form': 'recast', 'table': rows, 'var0': varset[0]}, 'recast')
         acc.sample({'form': 'recast', 'rows': n, 'header': hdr}, 1)
         return
     if fam == 'transpose':
